@@ -85,11 +85,26 @@ def recording_actions(nts, terms, tag="n"):
 
         def nt_action(context, nodes, _n=n, **kw):
             SEAM.hit("reduce_action")
+            # user code owns what the built-in actions hand it: lists returned for
+            # x* / x+ / x? sub-rules are modified in place, as actions commonly do
+            # (only results of NONTERMINALS: a terminal's result may be the token's
+            # own value object)
+            try:
+                rhs = [s for s in list.__iter__(context.production.rhs) if s.name != "EMPTY"]
+            except Exception:
+                rhs = []
+            for i, x in enumerate(nodes):
+                if (isinstance(x, list) and not (x and isinstance(x[0], str) and x[0] != "~")
+                        and i < len(rhs) and hasattr(rhs[i], "productions")):
+                    x.append("~")
             r = [tag, _n, context.production.prod_symbol_id, list(nodes)]
             if kw:
                 r.append({k: kw[k] for k in sorted(kw)})
+            # ... and keeps per-parse state in context.extra (a dict that parse()
+            # creates afresh unless the caller passes one)
             ex = getattr(context, "extra", None)
-            if isinstance(ex, dict) and ex:
+            if isinstance(ex, dict):
+                ex["reductions"] = ex.get("reductions", 0) + 1
                 r.append({"extra": {str(k): ex[k] for k in sorted(ex)}})
             return r
 
@@ -222,7 +237,13 @@ class RecoveryPeer:
             self.log.append(["pureskip", n, head.position])
             return True
         if d == "skip":
-            head.position = min(len(head.input_str), head.position + n)
+            # half of the time exactly the repository's own pattern (head.position += N;
+            # return default_error_recovery(head)): near the end of the input the
+            # position handed to the default strategy lies BEYOND the end
+            if pick2 < 0.5:
+                head.position += n
+            else:
+                head.position = min(len(head.input_str), head.position + n)
             r = default(head)
             self.log.append(["skip", n, head.position, bool(r)])
             return r
